@@ -11,6 +11,9 @@ def _conc_int(t):
     return t.as_long() if z3.is_int_value(t) else None
 
 
+REALSORT = z3.RealSort()
+
+
 class ExprMixin:
     def ev(self, e):
         m = getattr(self, 'ev_' + type(e).__name__, None)
@@ -120,6 +123,8 @@ class ExprMixin:
             return VC(B.py_binop(op, x_, y_))
         if a.k == 'const' and isinstance(a.t, str) and op == 'Mod':
             raise Unsupported('% string formatting')
+        if a.k in ('real', 'earr') or b.k in ('real', 'earr'):
+            return self.np_binop(op, a, b, node)          # X-NPSTEP (pyvc/npstats.py)
         if op == 'Add' and (a.k == 'tuple' and b.k == 'tuple'):
             return SV('tuple', a.t + b.t)
         if op == 'Add' and ((a.k == 'list' and isinstance(self.st.heap[a.t], HSeqList)) or (b.k == 'list' and isinstance(self.st.heap[b.t], HSeqList))
@@ -265,6 +270,8 @@ class ExprMixin:
 
     def ev_UnaryOp(self, e):
         a = self.ev(e.operand)
+        if a.k == 'earr' or (a.k == 'real' and not isinstance(e.op, ast.Not)):
+            return self.np_unary(type(e.op).__name__, a)
         if isinstance(e.op, ast.Not):
             return VB(z3.Not(self.truth(a)))
         if isinstance(e.op, ast.USub):
@@ -358,11 +365,15 @@ class ExprMixin:
         cs = []
         for op, r in zip(e.ops, e.comparators):
             right = self.ev(r)
+            if (left.k == 'earr' or right.k == 'earr') and len(e.ops) == 1:
+                return self.np_compare(type(op).__name__, left, right)      # element-wise: an array of booleans (X-NPSTEP)
             cs.append(self.compare(type(op).__name__, left, right, e))
             left = right
         return VB(z3.And(*cs) if len(cs) > 1 else cs[0])
 
     def compare(self, o, a, b, node=None):
+        if (a.k == 'real' or b.k == 'real') and o in self.REL and a.k != 'none' and b.k != 'none':
+            return self.np_compare(o, a, b).t
         if o in ('Is', 'IsNot'):
             r = self.identical(a, b)
             return r if o == 'Is' else z3.Not(r)
@@ -382,6 +393,12 @@ class ExprMixin:
         return {'Lt': x < y, 'LtE': x <= y, 'Gt': x > y, 'GtE': x >= y}[o]
 
     def identical(self, a, b):
+        if a.k in ('real', 'earr') or b.k in ('real', 'earr'):
+            if a.k == 'real' and b.k == 'real':
+                return a.t == b.t if z3.eq(a.t, b.t) else self.ufunc('same_float_object', REALSORT, REALSORT, BOOL)(a.t, b.t)
+            return z3.BoolVal(False)
+        if self.in_spec and {a.k, b.k} == {'int', 'bool'}:
+            return z3.BoolVal(False)             # `n is True`: an int object is never the bool singleton (contracts only)
         if a.k == 'none' or b.k == 'none':
             if a.k == 'opq' or b.k == 'opq':
                 o = a if a.k == 'opq' else b
@@ -417,6 +434,10 @@ class ExprMixin:
     def equal(self, a, b):
         if a.k == 'const' and b.k == 'const':
             return z3.BoolVal(a.t == b.t)
+        if a.k == 'real' or b.k == 'real':
+            if a.k == 'none' or b.k == 'none' or a.k in ('str', 'bytes', 'tuple') or b.k in ('str', 'bytes', 'tuple'):
+                return z3.BoolVal(False)
+            return self.np_compare('Eq', a, b).t
         if a.k == 'none' or b.k == 'none':
             if a.k == 'opq' or b.k == 'opq':
                 return self.identical(a, b)
@@ -725,6 +746,8 @@ class ExprMixin:
         return self.opq_call(base, '__getitem__', [SV('slice', (lo, hi))], {}, node)
 
     def index_value(self, base, idx, node=None):
+        if base.k == 'earr':
+            return self.np_index(base, idx, node)
         if base.k == 'list' and isinstance(self.st.heap[base.t], HSeqList):
             h = self.st.heap[base.t]
             return self.index_value(SV('seq', h.seq, h.x), idx, node)
